@@ -20,5 +20,6 @@ Conforms(in, obs) ==
   /\ (r = <<>> => obs.nexec <= 1)
 
 Describe(in) == [paths |-> Paths(Reached(in.tree, CfgOf(in), in.roots, in.pre))]
+Beyond(in) == FALSE
 INSTANCE TraceCheck
 =============================================================================
